@@ -10,6 +10,8 @@ def run(rep, tier, seed):
             drive.run_op(rep, persist.PersistHarness(kind, 2, M, prefix=prefix, may_fail=False))
     for kind, M in (("system-z", 1 if quick else 2), ("c-rep", 1)):
         drive.run_op(rep, persist.PersistHarness(kind, 2, M, prefix=[3], may_fail=True))
+    for M in ((2,) if quick else (2, 3)):
+        drive.run_op(rep, persist.PersistHarness("c-rep", 2, M, prefix=[], only_impacts=True))
     fails = rep.witnesses.get("failed_saves", 0)
     if not fails:
         rep.inconclusive.append("vacuity: no path with a failing save was explored")
